@@ -27,6 +27,10 @@ MUT = [
      "        self.wal.record_checkpoint(&mut self.header)?;\n        crate::persist_header(&mut self.file, &self.header)?;\n        if !delta.is_empty() {",
      "        self.wal.record_checkpoint(&mut self.header)?;\n        if !delta.is_empty() {",
      'recover_wal does not persist the advanced wal_sequence'),
+    ('C05-open-sequence-from-zero', 'C05', 'src/io/wal.rs', "            .map_or(checkpoint_sequence, |entry| entry.sequence);", "            .map_or(0, |entry| entry.sequence);",
+     'open_internal restarts numbering at 0 when the region scans empty'),
+    ('C32-wildcard-expect', 'C32', 'src/search/parser.rs', "Regex::new(&pattern).unwrap_or_else(|_| Regex::new(\"^$\").unwrap());", "Regex::new(&pattern).expect(\"escaped pattern\");",
+     'WildcardPattern::new panics when the regex is too big'),
     ('C05-wrap-guard-removed', 'C05', 'src/io/wal.rs', "            if self.pending_bytes > 0 {\n                return Err(MemvidError::CheckpointFailed {\n                    reason: \"embedded WAL region full\".into(),",
      "            if false {\n                return Err(MemvidError::CheckpointFailed {\n                    reason: \"embedded WAL region full\".into(),",
      'append_entry wraps over pending records'),
@@ -135,7 +139,8 @@ def main():
     old = {r['id']: r for r in (json.load(open(out)) if os.path.exists(out) else [])}
     for r in res:
         old[r['id']] = r
-    json.dump([old[k] for k in sorted(old)], open(out, 'w'), indent=1)
+    ids = {m[0] for m in MUT}       # entries of edits that were renamed or removed from the list are dropped
+    json.dump([old[k] for k in sorted(old) if k in ids], open(out, 'w'), indent=1)
     return 0
 
 
